@@ -502,6 +502,54 @@ func main() {
 			}
 		}
 	}
+	// 3. an accessor for the package-level variables of every package of the module
+	//    (the C19 footprint pass treats them as memory shared by all goroutines)
+	for _, dir := range dirs {
+		fset := token.NewFileSet()
+		pkgs, err := parser.ParseDir(fset, dir, func(fi os.FileInfo) bool { return !strings.HasSuffix(fi.Name(), "_test.go") }, 0)
+		if err != nil {
+			continue
+		}
+		for _, pkg := range pkgs {
+			if pkg.Name == "pb" || pkg.Name == "main" || strings.HasSuffix(pkg.Name, "_test") {
+				continue
+			}
+			var names []string
+			for fname, f := range pkg.Files {
+				if strings.HasSuffix(fname, ".pb.go") {
+					continue
+				}
+				for _, d := range f.Decls {
+					gd, ok := d.(*ast.GenDecl)
+					if !ok || gd.Tok != token.VAR {
+						continue
+					}
+					for _, sp := range gd.Specs {
+						for _, n := range sp.(*ast.ValueSpec).Names {
+							if n.Name != "_" {
+								names = append(names, n.Name)
+							}
+						}
+					}
+				}
+			}
+			if len(names) == 0 {
+				continue
+			}
+			sort.Strings(names)
+			var sb strings.Builder
+			fmt.Fprintf(&sb, "package %s\n\n// VerifGlobals is generated by the verification harness (build overlay only).\nfunc VerifGlobals() map[string]interface{} {\n\treturn map[string]interface{}{\n", pkg.Name)
+			for _, n := range names {
+				fmt.Fprintf(&sb, "\t\t%q: &%s,\n", n, n)
+			}
+			sb.WriteString("\t}\n}\n")
+			rel, _ := filepath.Rel(mod, dir)
+			dst := filepath.Join(out, rel, "zz_verif_globals.go")
+			os.MkdirAll(filepath.Dir(dst), 0o755)
+			os.WriteFile(dst, []byte(sb.String()), 0o644)
+			overlay[filepath.Join(dir, "zz_verif_globals.go")] = dst
+		}
+	}
 	b, _ := json.MarshalIndent(map[string]interface{}{"Replace": overlay}, "", " ")
 	if err := os.WriteFile(filepath.Join(out, "overlay.json"), b, 0o644); err != nil {
 		fatal("%v", err)
